@@ -161,6 +161,9 @@ def attribute(forms, kind, unit, as_module):
         return "F06 (module mode) native code generator panics on + - * / < <= > >= applied to an unsupported number of operands"
     if "TypeMismatch" in kind and "#&" in err:
         return "F04 read of an assigned variable captured by a loop closure yields its box instead of its value"
+    if as_module and "void" in kind and any(
+            isinstance(f, list) and f and f[0] != "define" and any(n and n[0] == "with-handler" for n in _walk(f)) for f in forms):
+        return "F10 (module mode) a with-handler form evaluated at the top level of a module yields #<void> when its handler runs"
     global BUILTINS
     if BUILTINS is None:
         static_ok([])
@@ -173,6 +176,7 @@ def attribute(forms, kind, unit, as_module):
 
 
 KNOWN_WITNESSES = [
+    ("F10", "(define v (vector 5 1)) (verif-emit (with-handler (lambda (e) 'err) (vector-ref v 3)))", True),
     ("F08", "(verif-emit (let* ((v21 0) (v22 (car (vector->list (vector))))) (+ v21)))", False),
     ("F09", "(define (f0 a3) (define (inner4 z) (let* ((v4 (list)) (v1 a3)) (set! v1 (+ v1 2)) 0)) 0) (verif-emit 1)", False),
     ("F07", "(verif-emit (let ((not (lambda (x) (+ x 5)))) (not 1)))", True),
